@@ -2,5 +2,6 @@
    ExtrOcamlBasic only; no Extract Constant of our own. *)
 From Coq Require Extraction.
 From Coq Require Import ExtrOcamlBasic.
-From TI Require Import Bytes Tags.
-Extraction "extracted/model.ml" Bytes.bs Bytes.to_dec Bytes.dec Bytes.utf8_valid Tags.idgen_next Tags.tag_of.
+From TI Require Import Bytes Tags BodyStruct.
+Extraction "extracted/model.ml" Bytes.bs Bytes.to_dec Bytes.dec Bytes.utf8_valid Tags.idgen_next Tags.tag_of
+  BodyStruct.build_map BodyStruct.candidates BodyStruct.label.
